@@ -59,6 +59,7 @@ pub fn canon_tokens(ts: TokenStream) -> String {
 
 thread_local! {
     static LAST_PANIC: RefCell<Option<String>> = RefCell::new(None);
+    static CATCH_DEPTH: std::cell::Cell<usize> = std::cell::Cell::new(0);
 }
 
 /// Install (once) a panic hook that records the message instead of printing it.
@@ -77,6 +78,10 @@ pub fn install_quiet_panic_hook() {
                 .location()
                 .map(|l| format!("{}:{}", l.file(), l.line()))
                 .unwrap_or_default();
+            if CATCH_DEPTH.with(|d| d.get()) == 0 {
+                // a panic of the harness itself, not of the code under test
+                eprintln!("harness panic: {} @ {}", msg, loc);
+            }
             LAST_PANIC.with(|p| *p.borrow_mut() = Some(format!("{} @ {}", msg, loc)));
         }));
     });
@@ -86,7 +91,10 @@ pub fn install_quiet_panic_hook() {
 pub fn catch<T>(f: impl FnOnce() -> T) -> Result<T, String> {
     install_quiet_panic_hook();
     LAST_PANIC.with(|p| *p.borrow_mut() = None);
-    match panic::catch_unwind(AssertUnwindSafe(f)) {
+    CATCH_DEPTH.with(|d| d.set(d.get() + 1));
+    let r = panic::catch_unwind(AssertUnwindSafe(f));
+    CATCH_DEPTH.with(|d| d.set(d.get() - 1));
+    match r {
         Ok(v) => Ok(v),
         Err(_) => Err(LAST_PANIC
             .with(|p| p.borrow_mut().take())
